@@ -77,6 +77,23 @@ def rw_refstyle(rng, ap):
     return projects.render(ap2), None
 
 
+OPTS = ("gap", "onstart", "maxgap", "gaplen")
+
+
+def decorate(rng, ap):
+    """give some dependencies options that the generators do not use (each alone and combined):
+    maxgapduration, gaplength"""
+    for _, n in projects.walk(ap["tasks"]):
+        for key in ("deps", "precedes"):
+            for d in n.get(key, []) or []:
+                k = rng.random()
+                if k < 0.3:
+                    d["maxgap"] = rng.choice([60, 120, 480])
+                elif k < 0.4 and not ap.get("alap"):
+                    d["gaplen"] = rng.choice([60, 120, 240])
+                    d.pop("gap", None)
+
+
 def rw_precedes(rng, ap):
     """express 'b depends a {opts}' as 'a precedes b {opts}' and the other way round"""
     ap2 = copy.deepcopy(ap)
@@ -86,11 +103,11 @@ def rw_precedes(rng, ap):
         for d in list(n.get("deps", []) or []):
             if rng.random() < 0.6:
                 n["deps"].remove(d)
-                moves.append((tuple(d["to"]), {"to": list(p), "style": d.get("style", "abs"), **{k: d[k] for k in ("gap", "onstart") if k in d}}, "precedes"))
+                moves.append((tuple(d["to"]), {"to": list(p), "style": d.get("style", "abs"), **{k: d[k] for k in OPTS if k in d}}, "precedes"))
         for d in list(n.get("precedes", []) or []):
             if rng.random() < 0.6:
                 n["precedes"].remove(d)
-                moves.append((tuple(d["to"]), {"to": list(p), "style": d.get("style", "abs"), **{k: d[k] for k in ("gap", "onstart") if k in d}}, "deps"))
+                moves.append((tuple(d["to"]), {"to": list(p), "style": d.get("style", "abs"), **{k: d[k] for k in OPTS if k in d}}, "deps"))
     for src, d, key in moves:
         idx[src].setdefault(key, []).append(d)
     return projects.render(ap2), None
@@ -155,6 +172,8 @@ def run(ctx):
     base = []
     for fam, nq, nt in (("deps", 80, 800), ("coredeps", 60, 600), ("hours", 50, 500), ("core", 30, 300), ("alap", 30, 300)):
         base += gens.family(ctx, fam, ctx.n(nq, nt))
+    for ap in base[::2]:
+        decorate(ctx.rng, ap)
     texts, metas = [], []
     for ap in base:
         for name in ctx.rng.sample(sorted(REWRITES), 3):
@@ -197,7 +216,7 @@ def run(ctx):
         violations.append({"no_input": True, "replay": common.write_replay(ctx, {"property": "C15", "kind": "proof obligation no longer checks; no failing input found", "failing_obligations": failing})})
     cov = {"obligations": nob, "discharged": ndis, "checker_cmd": "tools/coqbuild.sh (coqc 8.16.1 full .vo build)", "trusted_base": common.TRUSTED, "files": files,
            "traces_validated_against_impl": len(texts), "input_distribution": dict(stats), "findings": len(bad),
-           "rule": "each generated project (nested trees, relative/absolute references, precedes, container dependencies, shifts, ALAP) is scheduled as written and under 3 of 6 meaning-preserving rewrites: consistent renaming of task/resource/shift ids (local task ids may then coincide across containers), relative <-> absolute references, depends <-> precedes on the other task (options kept), shift reference <-> inline hours, comments/whitespace (#, //, /* */, inside-comment braces and quotes), attribute lines moved into macros; all task dates compared (ids mapped back)",
+           "rule": "each generated project (nested trees, relative/absolute references, precedes, container dependencies, shifts, ALAP) is scheduled as written and under 3 of 6 meaning-preserving rewrites: consistent renaming of task/resource/shift ids (local task ids may then coincide across containers), relative <-> absolute references, depends <-> precedes on the other task (options kept: gapduration, gaplength, maxgapduration, onstart, each alone and combined), shift reference <-> inline hours, comments/whitespace (#, //, /* */, inside-comment braces and quotes), attribute lines moved into macros; all task dates compared (ids mapped back)",
            "samples": [{"rewrite": metas[0][1], "text": texts[0][:900]}]}
     common.finish(ctx, "proof", cov, violations,
                   ["partial: the Lark grammar / lexer is not modelled; the theorems cover reference resolution under renaming and the precedes inversion; everything else is decided by the rewrite runs"])
